@@ -1,7 +1,7 @@
 use std::{
     collections::HashMap,
     fs::{self, File, OpenOptions},
-    io::{self, BufRead, BufReader, BufWriter, Write},
+    io::{self, BufRead, BufReader, BufWriter, Read, Seek, SeekFrom, Write},
     path::{Path, PathBuf},
 };
 
@@ -76,6 +76,62 @@ impl EventLog {
 
     pub fn replay_session(&self, session_id: &str) -> io::Result<Vec<Event>> {
         self.replay_stream(StreamKind::Session, session_id)
+    }
+
+    /// Seq of the last frame of a stream, found by scanning the log backwards from its end
+    /// (no full replay). Lines that are not frames are skipped. `Ok(None)` when the stream has
+    /// no frame in the log.
+    pub fn last_seq_of_stream(
+        &self,
+        stream_kind: StreamKind,
+        stream_id: &str,
+    ) -> io::Result<Option<u64>> {
+        const CHUNK_BYTES: u64 = 64 * 1024;
+
+        #[derive(serde::Deserialize)]
+        struct FrameHeader {
+            stream_kind: StreamKind,
+            stream_id: String,
+            seq: u64,
+        }
+
+        let matches = |line: &[u8]| -> Option<u64> {
+            let header: FrameHeader = serde_json::from_slice(line).ok()?;
+            (header.stream_kind == stream_kind && header.stream_id == stream_id)
+                .then_some(header.seq)
+        };
+
+        let mut file = File::open(&self.path)?;
+        let mut pos = file.metadata()?.len();
+        // Bytes of the line that straddles the start of what has been read so far.
+        let mut pending: Vec<u8> = Vec::new();
+        while pos > 0 {
+            let step = pos.min(CHUNK_BYTES);
+            pos -= step;
+            file.seek(SeekFrom::Start(pos))?;
+            let mut chunk = vec![0u8; step as usize];
+            file.read_exact(&mut chunk)?;
+            chunk.extend_from_slice(&pending);
+
+            // Everything after the first newline is made of whole lines; visit them last-first.
+            let first_newline = chunk.iter().position(|byte| *byte == b'\n');
+            let (head, lines) = match first_newline {
+                Some(idx) => chunk.split_at(idx + 1),
+                None => (chunk.as_slice(), &[][..]),
+            };
+            for line in lines.rsplit(|byte| *byte == b'\n') {
+                if line.is_empty() {
+                    continue;
+                }
+                if let Some(seq) = matches(line) {
+                    return Ok(Some(seq));
+                }
+            }
+            pending = head.to_vec();
+        }
+
+        let first_line = pending.strip_suffix(b"\n").unwrap_or(&pending);
+        Ok(matches(first_line))
     }
 }
 
